@@ -129,6 +129,8 @@ mod response;
 mod ssl;
 mod test;
 mod util;
+#[cfg(tiny_http_verif)]
+pub mod verif;
 
 /// The main class of this library.
 ///
